@@ -637,6 +637,7 @@ func (e *kvElection) Stop() error {
 	}
 
 	wasLeader := e.isLeader.Load()
+	onDemote := e.onDemote
 
 	currentState := StateInit
 	if s := e.state.Load(); s != nil {
@@ -690,13 +691,13 @@ func (e *kvElection) Stop() error {
 	case <-time.After(5 * time.Second):
 	}
 
-	if wasLeader && e.onDemote != nil {
+	if wasLeader && onDemote != nil {
 		log.Info("leader_demoted",
 			append(e.logWithContext(e.ctx),
 				zap.String("reason", "stop"),
 			)...,
 		)
-		e.onDemote()
+		onDemote()
 	}
 
 	return nil
@@ -712,6 +713,7 @@ func (e *kvElection) StopWithContext(ctx context.Context, opts StopOptions) erro
 
 	wasLeader := e.isLeader.Load()
 	termToken := e.Token()
+	hasOnDemote := e.onDemote != nil
 
 	currentState := StateInit
 	if s := e.state.Load(); s != nil {
@@ -824,7 +826,7 @@ func (e *kvElection) StopWithContext(ctx context.Context, opts StopOptions) erro
 		}
 	}
 
-	if wasLeader && e.onDemote != nil {
+	if wasLeader && hasOnDemote {
 		log := e.getLogger()
 		log.Info("leader_demoted",
 			append(e.logWithContext(ctx),
